@@ -816,3 +816,6 @@ def cases(rng, tier):
 
 def exhaustive(tier):
     return True
+
+
+KNOWN_MUST_MATCH_MODEL = True   # inside a known finding's region the observation must still equal the model's (which reproduces the listed defect); see lib/vf/run.py
